@@ -4,7 +4,7 @@
 From Coq Require Import List NArith Sorted.
 From Coq.Strings Require Import Byte.
 From GI Require Import Gen.LockedFileConsts LockedFile.LockedFile LockedFile.LockBasics
-  LockedFile.LockProofs LockedFile.TransformProofs
+  LockedFile.LockProofs LockedFile.TransformProofs LockedFile.TransformCall
   LockedFile.LinBasics LockedFile.LinProofs LockedFile.LinTheorems.
 Import ListNotations.
 
@@ -45,6 +45,18 @@ Theorem C07_transform_t_fails : forall t old fd plan,
   end.
 Proof. exact transform_t_fails. Qed.
 Print Assumptions C07_transform_t_fails.
+
+(* the whole call (open, flock, body, unlock, close) alone on the OS model *)
+Theorem C07_transform_call_fault_atomic : forall t old plan,
+  single_fault plan ->
+  match run_seq 0 0 (prog_of_call (CTransform t)) plan 0 (os_with (Some old)) with
+  | (_, out, s') =>
+      ltab s' 0 = [] /\ fds s' 0 = None /\
+      ((out = Finished ResOk /\ t old = Some (content_of (files s' 0))) \/
+       (out = Finished ResErr /\ content_of (files s' 0) = old))
+  end.
+Proof. exact transform_call_fault_atomic. Qed.
+Print Assumptions C07_transform_call_fault_atomic.
 
 (* ---- schedules: every interleaving of any number of clients (LinProofs / LinTheorems) *)
 
